@@ -412,6 +412,38 @@ def differential_interactive(engine, gen, n, rng, tier, result, nontrivial=None,
     return viol
 
 
+def differential_exhaustive(engine, scenarios, result, cap=4000):
+    """every schedule of each small scenario (stateless DFS by re-execution), each leaf validated against the model"""
+    import gens
+    cov = result['coverage']
+    viol = []
+    total, complete = 0, True
+    for init, calls, final in scenarios:
+        sess = Session(engine)
+        ex = gens.Explorer(engine, init, calls, final, cap=cap)
+        try:
+            recs = ex.run(sess)
+        except SessionAbort as e:
+            recs = ex.cases + [(list(sess.lines), list(sess.outs))]
+        sess.close()
+        complete = complete and ex.complete
+        text = 'engine %s\n' % engine + ''.join('case %d\n' % i + '\n'.join(c) + '\n' for i, (c, _) in enumerate(recs))
+        rc, model, err = run_script(NVMODEL, text, 3000)
+        mc = split_cases(model)
+        for i, (c, io) in enumerate(recs):
+            total += 1
+            cov['evaluations'] += 1
+            mo = mc[i][1] if i < len(mc) else None
+            if lists_match(io, mo):
+                cov['traces_validated_against_impl'] += 1
+                cov['_distinct'].add(hashlib.sha1('\n'.join(c).encode()).hexdigest())
+            elif len(viol) < 3:
+                j = next((k for k in range(len(c)) if mo is None or k >= len(mo) or not line_match(io[k], mo[k])), 0)
+                viol.append({'engine': engine, 'script': c, 'kind': 'exhaustive', 'diff': {'line': j, 'op': c[j], 'impl': io[j] if j < len(io) else '?', 'model': mo[j] if mo and j < len(mo) else '<none>'}})
+    cov.setdefault('exhaustive_scenarios', {})[engine] = {'schedules': total, 'complete': complete}
+    return viol
+
+
 # ----------------------------------------------------------------------------------------------
 # known findings, replays, evidence
 # ----------------------------------------------------------------------------------------------
